@@ -341,7 +341,7 @@ func main() {
 				for _, i := range s {
 					f.mask.set(i)
 				}
-				if len(s) > 1 && f.solo() { // value-domain items do not combine
+				if f.solo() && (len(s) > 1 || skel != 0) { // value-domain items do not combine and do not depend on the form of the apex lines
 					return
 				}
 				classes[k] = append(classes[k], f)
@@ -548,7 +548,7 @@ func main() {
 	r.Set("names_asked_of_combinable_files", len(baseNames))
 	r.Set("near_qtypes", len(nearQtypes))
 	r.Set("not_compared_ds_at_delegation_point", nSkipped)
-	r.Set("rule", fmt.Sprintf("data file = skeleton (apex example.com SOA+NS as Z+& lines, or as one '.' line for files of <=%d items; resolver maps Mexample.com/M*.example.com -> m1, %%aa 10/8, %%bb 192.168/16) + every subset of <=%d of the %d combinable alphabet items, or + exactly one of the %d value-domain items (each item = text lines + hand-written structured records; combinable items include zone apexes and cuts whose SOA / NS / other records are split between a location and the untagged set; value-domain items put one value below, at and above every size boundary of the record encoders into one field: TXT of 1,126,127,128,253,254,255,256,381 bytes, labels of 63 bytes and names of 254/255 wire bytes as owner, wildcard parent, rdata name and expanded MX host, owners and wildcards 11-15 labels deep, MX preference 0/256/65535, SRV numbers 0 and 65533..65535, TTL 0/1/2^31-1, SOA numbers 0 and 2^32-5..2^32-1, SVCB alpn ids of 1/254/255 bytes, port 0/65535, priority 0/65535, generic rdata of 1 and 300 bytes); each file compiled by the real compilers for cdb (all files), rdb-v1 (files of <=%d items) and rdb-v2 (files of <=%d items, plus the files of %d items none of which is one of the %d auxiliary items, i.e. items whose key shape (owner, wildcard flag, location) repeats another item's and that play no part in additional-section processing), opened by the real handler and asked names x qtypes x clients with maxAnswer=%d: the two skeleton-only files are asked the closed universe of the whole alphabet (%d names: owners, targets, ancestors, a fresh sibling nx under every node, under-wildcard names, two case variants, and %d names at the size limits: 15 labels below a wildcard, 123 and 121 one-byte labels = 255 wire bytes below the apex and below a delegation, a 63-byte label below a wildcard); files of <=%d combinable items the universe closed over the combinable items (%d names); larger files and value-domain files the sub-universe closed over their own records plus 6 byte-order-neighbour probes, the size-limit names and the case variants, so every sub-file of a reported case was asked the same query. Qtypes: %d (all declared types, ANY, DS) x %d clients (located aa, located bb, unlocated) everywhere, plus %d neighbour qtypes (0,3,4,14,27,29,42,44,66,254,256,65535: adjacent to every qtype the server treats specially) from the aa client for the files asked a full universe. Each response compared with the reference interpreter. states = databases compiled and opened; transitions = evaluations = queries served and compared; distinct_nontrivial = (file, query, client) triples whose prescribed outcome is a referral, a NODATA or a positive answer (i.e. neither REFUSED nor NXDOMAIN); a failing case is reported only if no sub-file fails the same (backend, query, client, kind)", maxItemsSkelB, maxItems, len(alphabet)-nSolo, nSolo, anySize[dnsfix.RDBv1], anySize[dnsfix.RDBv2], coreSize[dnsfix.RDBv2], nAux, maxAnswer, len(names), len(extraQueryNames), fullUniverseItems, len(baseNames), len(qtypes), len(clients), len(nearQtypes)))
+	r.Set("rule", fmt.Sprintf("data file = skeleton (apex example.com SOA+NS as Z+& lines, or as one '.' line for files of <=%d items; resolver maps Mexample.com/M*.example.com -> m1, %%aa 10/8, %%bb 192.168/16) + every subset of <=%d of the %d combinable alphabet items, or (Z+& skeleton only) + exactly one of the %d value-domain items (each item = text lines + hand-written structured records; combinable items include zone apexes and cuts whose SOA / NS / other records are split between a location and the untagged set; value-domain items put one value below, at and above every size boundary of the record encoders into one field: TXT of 1,126,127,128,253,254,255,256,381 bytes, labels of 63 bytes and names of 254/255 wire bytes as owner, wildcard parent, rdata name and expanded MX host, owners and wildcards 11-15 labels deep, MX preference 0/256/65535, SRV numbers 0 and 65533..65535, TTL 0/1/2^31-1, SOA numbers 0 and 2^32-5..2^32-1, SVCB alpn ids of 1/254/255 bytes, port 0/65535, priority 0/65535, generic rdata of 1 and 300 bytes); each file compiled by the real compilers for cdb (all files), rdb-v1 (files of <=%d items) and rdb-v2 (files of <=%d items, plus the files of %d items none of which is one of the %d auxiliary items, i.e. items whose key shape (owner, wildcard flag, location) repeats another item's and that play no part in additional-section processing), opened by the real handler and asked names x qtypes x clients with maxAnswer=%d: the two skeleton-only files are asked the closed universe of the whole alphabet (%d names: owners, targets, ancestors, a fresh sibling nx under every node, under-wildcard names, two case variants, and %d names at the size limits: 15 labels below a wildcard, 123 and 121 one-byte labels = 255 wire bytes below the apex and below a delegation, a 63-byte label below a wildcard); files of <=%d combinable items the universe closed over the combinable items (%d names); larger files and value-domain files the sub-universe closed over their own records plus 6 byte-order-neighbour probes, the size-limit names and the case variants, so every sub-file of a reported case was asked the same query. Qtypes: %d (all declared types, ANY, DS) x %d clients (located aa, located bb, unlocated) everywhere, plus %d neighbour qtypes (0,3,4,14,27,29,42,44,66,254,256,65535: adjacent to every qtype the server treats specially) from the aa client for the files asked a full universe. Each response compared with the reference interpreter. states = databases compiled and opened; transitions = evaluations = queries served and compared; distinct_nontrivial = (file, query, client) triples whose prescribed outcome is a referral, a NODATA or a positive answer (i.e. neither REFUSED nor NXDOMAIN); a failing case is reported only if no sub-file fails the same (backend, query, client, kind)", maxItemsSkelB, maxItems, len(alphabet)-nSolo, nSolo, anySize[dnsfix.RDBv1], anySize[dnsfix.RDBv2], coreSize[dnsfix.RDBv2], nAux, maxAnswer, len(names), len(extraQueryNames), fullUniverseItems, len(baseNames), len(qtypes), len(clients), len(nearQtypes)))
 	r.Assume = []string{
 		"the weighted-selection random source is replaced by a deterministic one that never draws the edge value 0 (C11 covers the draws); all address records have weight 1 and maxAnswer >= candidates, so the answer set is independent of the draws",
 		"not compared (statement silent): additional section of positive answers beyond soundness, RR class, order within a section, qtype DS exactly at a delegation point (answered from the parent side by design; DS below a delegation and DS anywhere else are compared like every other qtype), ANY beyond answer being a sub-multiset of the visible records of the name, how a TXT text is cut into character-strings (only: the concatenation is the declared text and no character-string is empty)",
